@@ -72,7 +72,7 @@ func TestBoundedC10(t *testing.T) {
 			fmt.Printf("BOUNDED-FAIL: "+format+"\n", a...)
 		}
 	}
-	check := func(ops []bOp, big, secure bool) {
+	check := func(ops []bOp, big, secure, toDisk bool) {
 		count++
 		content := map[int][]byte{}
 		for i, o := range ops {
@@ -126,9 +126,14 @@ func TestBoundedC10(t *testing.T) {
 				if err != nil {
 					t.Fatal(err)
 				}
-				if err := db.Commit(root, false); err != nil {
-					t.Fatal(err)
+				if toDisk {
+					// flush to the key-value store and start over with a fresh node database (nodes come back from disk)
+					if err := db.Commit(root, false); err != nil {
+						t.Fatal(err)
+					}
+					db = NewDatabase(db.DiskDB().(dbm.DB))
 				}
+				// otherwise the nodes are served from the node database's memory cache
 				tr = newTrie(root, db)
 			}
 		}
@@ -223,8 +228,9 @@ func TestBoundedC10(t *testing.T) {
 			// delete two of them, re-insert one, overwrite one
 			ops = append(ops, bOp{k: base[p[1]], del: true}, bOp{k: base[p[len(p)-1]], del: true}, bOp{k: base[p[1]]}, bOp{k: base[p[0]]})
 			for _, big := range []bool{false, true} {
-				check(ops, big, false)
-				check(ops, big, true)
+				check(ops, big, false, true)
+				check(ops, big, false, false)
+				check(ops, big, true, count%2 == 0)
 			}
 			// delete everything but one
 			var ops2 []bOp
@@ -232,9 +238,55 @@ func TestBoundedC10(t *testing.T) {
 			for _, i := range p[1:] {
 				ops2 = append(ops2, bOp{k: base[i], del: true})
 			}
-			check(ops2, false, false)
-			check(ops2, true, false)
+			check(ops2, false, false, true)
+			check(ops2, true, false, false)
 		})
+	}
+	// interrupted Database.Commit: a root that opens from what reached the disk delivers all of its content
+	{
+		const n = 2500
+		var keys, vals [][]byte
+		for i := 0; i < n; i++ {
+			keys = append(keys, crypto.Keccak256([]byte{byte(i), byte(i >> 8), 7}))
+			vals = append(vals, bytes.Repeat([]byte{1, byte(i), byte(i >> 8)}, 24))
+		}
+		build := func(d dbm.DB) (common.Hash, error) {
+			triedb := NewDatabase(d)
+			tr, _ := New(common.EmptyHash, triedb)
+			for i := range keys {
+				tr.TryUpdate(keys[i], vals[i])
+			}
+			root, err := tr.Commit(nil)
+			if err != nil {
+				t.Fatal(err)
+			}
+			return root, triedb.Commit(root, false)
+		}
+		dry := &bCrashDB{DB: dbm.NewMemDB(), ok: 1 << 30}
+		if _, err := build(dry); err != nil {
+			t.Fatal(err)
+		}
+		for crashAfter := 0; crashAfter < dry.commits; crashAfter++ {
+			disk := dbm.NewMemDB()
+			root, err := build(&bCrashDB{DB: disk, ok: crashAfter})
+			count++
+			if err == nil {
+				fail("interrupted commit (after %d batch writes) reported success", crashAfter)
+			}
+			re, err := New(root, NewDatabase(disk))
+			if err != nil {
+				continue // the root did not reach the disk: the caller falls back to an older root
+			}
+			bad := 0
+			for i := range keys {
+				if got, err := re.TryGet(keys[i]); err != nil || !bytes.Equal(got, vals[i]) {
+					bad++
+				}
+			}
+			if bad > 0 {
+				fail("commit interrupted after %d of %d batch writes: the root opens from disk but %d of %d keys are unreadable", crashAfter, dry.commits, bad, n)
+			}
+		}
 	}
 	if knownPrefixOrder > 0 {
 		fmt.Printf("KNOWN-FINDING: property=C10 the trie iterator yields a key that is a strict prefix of other stored keys after them, not in key order (%d occurrences in this run)\n", knownPrefixOrder)
@@ -243,4 +295,36 @@ func TestBoundedC10(t *testing.T) {
 	if nfail > 0 {
 		t.Fatalf("%d failures", nfail)
 	}
+}
+
+// bCrashDB lets the first ok batch commits through and then fails every later one, leaving the store untouched.
+type bCrashDB struct {
+	dbm.DB
+	ok, commits int
+	failed      bool
+}
+
+func (d *bCrashDB) NewBatch() dbm.Batch { return &bCrashBatch{Batch: d.DB.NewBatch(), db: d} }
+
+type bCrashBatch struct {
+	dbm.Batch
+	db *bCrashDB
+}
+
+func (b *bCrashBatch) Commit() error {
+	if b.db.failed || b.db.commits >= b.db.ok {
+		b.db.failed = true
+		return fmt.Errorf("simulated power loss")
+	}
+	b.db.commits++
+	return b.Batch.Commit()
+}
+
+func (b *bCrashBatch) Write() {
+	if b.db.failed || b.db.commits >= b.db.ok {
+		b.db.failed = true
+		return
+	}
+	b.db.commits++
+	b.Batch.Write()
 }
